@@ -1,3 +1,5 @@
+#[cfg(huginn_net_verif_sched)]
+use huginn_net_verif_rt::std;
 use crate::filter::FilterConfig;
 use crate::output::TlsClientOutput;
 use crate::packet_hash;
